@@ -74,7 +74,9 @@ def _counterexample(ev, tag):
     with open(path, "w") as f:
         f.write(json.dumps(e) + "\n")
     r = core.tlc(TRACE_SPEC, cfg="T_C10_cex.cfg", trace=path, workers=1, timeout=900)
-    return r.cex() if r.invariant else r.out[-3000:]
+    text = r.cex() if r.invariant else r.out[-3000:]
+    # (TLC labels every state with the action and its parameter - the whole case list; cut those lines)
+    return "\n".join(x[:240] for x in text.splitlines())
 
 
 def check(seed, tier):
@@ -179,7 +181,7 @@ def replay(path, seed, tier):
         print("VIOLATION property=C10 replay=%s" % path)
         log("\n".join(r.badlines[:6]))
         c = core.tlc(TRACE_SPEC, cfg="T_C10_cex.cfg", trace=f, workers=1, timeout=900)
-        log(c.cex()[:6000])
+        log("\n".join(x[:240] for x in c.cex().splitlines())[:8000])
         return 1
     print("replay accepted: the recorded inputs no longer violate C10")
     return 0
